@@ -799,7 +799,7 @@ def replay_case(drifts, case, rng, canonical, full, stats, armor_hdrs, armor_fie
 def replay_chunk(args):
     """replay a slice of the CASE list (runs in a worker process in the thorough tier);
     every case has its own seeded generator, so the result does not depend on the slicing"""
-    seed, repo, items, k, quick, armor_hdrs, armor_fields, chunk_no = args
+    seed, repo, items, k, quick, armor_hdrs, armor_fields, chunk_no, nchunks = args
     import sys
     lib = os.path.join(repo, "lib")
     if lib not in sys.path:
@@ -809,7 +809,7 @@ def replay_chunk(args):
     prev = None
     # size stress (notes/SIZE_STRESS.md): every 6th case (thorough: every 3rd second concretization) gets
     # names / lines of boundary lengths; the large documents get a few of them
-    sizes = Sizes(offset=chunk_no * 5, huge=3 if chunk_no == 0 else 1)
+    sizes = Sizes(offset=chunk_no * 7, huge=(3 if nchunks == 1 else 1) if chunk_no < 3 else 0)
     bigsizes = Sizes(offset=chunk_no * 3 + 7, huge=1, p_name=0.5, p_line=0.02)
     for idx, case in items:
         nfields = sum(len(p) for p in case["doc"])
@@ -1177,10 +1177,11 @@ def run(ctx):
     hdrs = "{%s}" % ", ".join(map(str, armor_hdrs))
     inv_deep = ["RoundTrip", "ParseOneOk", "CommentInvariant"]
     light = [
-        dict(name="lts", cfg="MC_Deb822Reader_lts.cfg", workers=1, tags={"EDGE"}),
-        dict(name="lts_nows", cfg="MC_Deb822Reader_lts_nows.cfg", workers=1, tags={"EDGE"}),
+        dict(name="lts", cfg="MC_Deb822Reader_lts.cfg", workers=2, tags={"EDGE"}),
     ]
-    bigsel = "{1, 2, 3, 4, 5, 6, 7, 8}" if quick else "{1, 2, 3, 4, 5, 6, 7, 8, 9, 10, 11}"
+    if not quick:
+        light.append(dict(name="lts_nows", cfg="MC_Deb822Reader_lts_nows.cfg", workers=1, tags={"EDGE"}))
+    bigsel = "{1, 2, 3, 4, 5, 6, 7, 8, 9, 10, 11}"
     big_job = dict(name="bnd_big", workers=workers, tags={"CASE"}, java_opts=["-Xss256m"],
                    cfg=bnd_cfg(["BigInvariant", "EmitCase"], BigSel=bigsel, Emit="TRUE").replace("SPECIFICATION BSpec", "SPECIFICATION BigSpec"))
     if quick:
@@ -1204,7 +1205,7 @@ def run(ctx):
         light.append(dict(name="neg:%s=%s" % (const, val), expect=inv, workers=1, tags=set(),
                           cfg=cfg_text("MC_Deb822Reader_bnd.cfg", MaxTotal="2", MaxCont="1", ArmorHdrs="{1}", **{const: val})))
     kinds = '{"heavy"}' if quick else '{"heavy", "del", "first"}'
-    light.append(dict(name="calls", module="Deb822ReaderCalls", workers=1, tags={"EDGE", "DOCS"},
+    light.append(dict(name="calls", module="Deb822ReaderCalls", workers=3 if quick else 4, tags={"EDGE", "DOCS"},
                       cfg=cfg_text("MC_Deb822ReaderCalls.cfg", Kinds=kinds)))
     call_controls = [("SharedResults", "INVARIANT ReturnedFresh", "ReturnedFresh"),
                      ("SharedIterObject", "PROPERTY NoSpontaneousChange", "NoSpontaneousChange")]
@@ -1220,7 +1221,8 @@ def run(ctx):
                             timeout=timeout, java_opts=j.get("java_opts"))
 
     # the heavy configurations in two chains sharing the worker budget, the light ones (1 worker) beside them
-    with ThreadPoolExecutor(max_workers=2) as hx, ThreadPoolExecutor(max_workers=3) as lx:
+    light.sort(key=lambda j: 0 if j["name"] == "calls" else 1)      # the longest light job first
+    with ThreadPoolExecutor(max_workers=2) as hx, ThreadPoolExecutor(max_workers=4) as lx:
         f_heavy = [hx.submit(one, j) for j in heavy]
         f_light = [lx.submit(one, j) for j in light]
         jobs = light + heavy
@@ -1241,10 +1243,11 @@ def run(ctx):
         res[j["name"]] = r
 
     edges = res["lts"].printed.get("EDGE", [])
+    edges.sort(key=lambda e: (skey(e["from"]), e["c"], e["k"], e["b"]))       # emission order depends on the workers
     if len(edges) != res["lts"].generated - 2 or any(not isinstance(e, dict) for e in edges):
         raise core.MachineryError("closed automaton: %d EDGE lines for %d generated states" % (len(edges), res["lts"].generated))
     per_branch = {}
-    for e in edges + res["lts_nows"].printed.get("EDGE", []):
+    for e in edges + (res["lts_nows"].printed.get("EDGE", []) if "lts_nows" in res else []):
         per_branch[e["b"]] = per_branch.get(e["b"], 0) + 1
     ctx.extra["edges_per_branch"] = dict(sorted(per_branch.items()))
     ctx.extra["model"] = {"automaton_states": res["lts"].distinct, "automaton_edges": len(edges),
@@ -1278,9 +1281,9 @@ def run(ctx):
             raise core.MachineryError("CASE with Parse(Dump(P)) # P although RoundTrip holds")
     k = 1 if quick else 2
     items = list(enumerate(cases))
-    nproc = 1 if quick else max(1, min(8, budget))
-    nchunks = 1 if nproc == 1 else nproc * 6
-    chunks = [(ctx.seed, ctx.repo, items[i::nchunks], k, quick, armor_hdrs, armor_fields, i) for i in range(nchunks)]
+    nproc = max(1, min(4 if quick else 8, budget // 2))
+    nchunks = 1 if nproc == 1 else (12 if quick else 48)
+    chunks = [(ctx.seed, ctx.repo, items[i::nchunks], k, quick, armor_hdrs, armor_fields, i, nchunks) for i in range(nchunks)]
     if nproc == 1:
         outs = [replay_chunk(c) for c in chunks]
     else:
@@ -1330,6 +1333,7 @@ def run(ctx):
     t_ = time.time()
     # 2b. behaviours of the call-level model (Deb822ReaderCalls): scripted and random call sequences
     cedges = res["calls"].printed.get("EDGE", [])
+    cedges.sort(key=lambda e: (skey(e["from"]), e["op"], skey(e["args"])))
     cdocs = (res["calls"].printed.get("DOCS") or [None])[0]
     if len(cedges) != res["calls"].generated - 1 or not isinstance(cdocs, list) or any(d["parse"] != d["doc"] for d in cdocs):
         raise core.MachineryError("call-level model: %d EDGE lines for %d generated states / DOCS line missing"
